@@ -206,6 +206,12 @@ def w3(facts, tier):
                     lwn = W.normalise(lw, "w", v, g)
                 ls = rx.from_json(se["rx"])
                 ok1, w1_, _, _ = W.contains_modulo_expansion(lwn, ls, v, g)
+                if ok1 is False and w1_ and any(isinstance(y, tuple) and y[0] == "B" and y[2] == "other" and
+                                                any(isinstance(z, tuple) and z[0] == "B" and z[1] == y[1] and z[2] == rx.ANY for z in rx.symbols(lwn))
+                                                for y in w1_):
+                    # the value written there is computed (a table lookup, an arithmetic expression): which values it can take is
+                    # not known, so "a value outside the documented tags" is not a finding (the tag tables are rule W2's)
+                    ok1 = None
                 if ok1 is not True:
                     bad = bad or (v, gk, ok1, f"writer emits [{rx.show_word(w1_)}] which the documented format does not contain", lwn, ls)
                     continue
@@ -271,7 +277,7 @@ def format0_langs(facts, W=None):
     return out
 
 
-@rule("W8", ["C13"], floor=11, doc="library format 0 (old files; read-only): specialised to file_version = 0, the wire language of every schema-component "
+@rule("W8", ["C13", "C05"], floor=11, doc="library format 0 (old files; read-only): specialised to file_version = 0, the wire language of every schema-component "
       "reader equals the frozen format-0 layout (spec/format0_spec.json: the format-1 layout without the memory-layout annotations "
       "and the discriminant-width byte)")
 def w8(facts, tier):
@@ -284,7 +290,7 @@ def w8(facts, tier):
         for gk, lr, rf in ents:
             key = ty + (":" + gk if gk else "")
             if se is None or gk not in se:
-                yield ob(["C13"], "W8", key, "undecided", where(rf), f"{ty}: no format-0 entry in the frozen specification")
+                yield ob(["C13", "C05"], "W8", key, "undecided", where(rf), f"{ty}: no format-0 entry in the frozen specification")
                 continue
             ls = rx.from_json(se[gk]["rx"])
             # a reader may call the reader of a nested schema node (`Field::deserialize`) where the frozen layout spells that
@@ -302,16 +308,16 @@ def w8(facts, tier):
             ok1, w1_, _, _ = W.contains_modulo_expansion(ls, lr, 0, {})
             ok2, w2_, _, _ = W.contains_modulo_expansion(lr, ls, 0, {})
             if ok1 is True and ok2 is True:
-                yield ob(["C13"], "W8", key, "pass", where(rf), f"{rf['id']} at format 0 consumes {rx.show(lr)[:160]}")
+                yield ob(["C13", "C05"], "W8", key, "pass", where(rf), f"{rf['id']} at format 0 consumes {rx.show(lr)[:160]}")
             else:
                 st = "violation" if (ok1 is False or ok2 is False) else "undecided"
                 msg = (f"a format-0 {ty.split('::')[-1]} laid out as [{rx.show_word(w1_)}] is no longer consumed" if ok1 is not True else
                        f"the reader consumes [{rx.show_word(w2_)}], which is not how format 0 lays out a {ty.split('::')[-1]}")
-                yield ob(["C13"], "W8", key, st, where(rf),
+                yield ob(["C13", "C05"], "W8", key, st, where(rf),
                          f"{rf['id']} at file_version 0: {msg}; reader: {rx.show(lr)[:300]} ; format 0: {rx.show(ls)[:300]}: schema sections of "
                          f"old files are mis-framed")
     for ty in sorted(set(spec) - seen):
-        yield ob(["C13"], "W8", f"missing-reader:{ty}", "violation", "", f"the format-0 specification describes {ty} but no such reader exists")
+        yield ob(["C13", "C05"], "W8", f"missing-reader:{ty}", "violation", "", f"the format-0 specification describes {ty} but no such reader exists")
 
 
 # ---------------------------------------------------------------------------
@@ -363,8 +369,9 @@ class V0Eval:
     """value of an expression of a schema reader when deserializer.file_version == 0 (constants, tuples, None/unit variants;
     anything read from the stream is ('read',))"""
 
-    def __init__(self, f):
+    def __init__(self, f, facts=None):
         self.f = f
+        self.facts = facts
         self.env = {}
         for x in walk(f["body"]):
             if x.get("k") == "LetS" and x.get("init") is not None:
@@ -411,6 +418,22 @@ class V0Eval:
             return {"Gt": a > b, "Ge": a >= b, "Lt": a < b, "Le": a <= b, "Eq": a == b, "Ne": a != b}[n["op"]]
         return None
 
+    def helper_value(self, call, depth):
+        """`deserialize_unless_v0(deserializer, DEFAULT)?`: a private generic helper of the readers is evaluated at file_version 0 with
+        its parameters bound to the values of the arguments"""
+        call = peel_block(peel(call))
+        if self.facts is None or call.get("k") != "Call" or depth > 12:
+            return None
+        h = self.facts.fns.get((call.get("res") or {}).get("fn") or call.get("fn"))
+        if h is None or h["crate"] != "savefile" or not h.get("body") or (h.get("impl") or {}).get("trait") or h.get("pub"):
+            return None
+        sub = V0Eval(h, self.facts)
+        for p_, a_ in zip(h.get("params", []), call.get("args", [])):
+            if (p_.get("pat") or {}).get("k") == "Bind":
+                sub.env[p_["pat"]["v"]] = self.ev(a_, depth + 1)
+        v = sub.ev(h["body"], depth + 1)
+        return v if v[0] not in ("?", "call") else None
+
     def ev(self, n, depth=0):
         n = peel_block(peel(n))
         k = n.get("k")
@@ -431,8 +454,11 @@ class V0Eval:
         if k == "Var":
             return self.force(self.env.get(n["v"], ("?",)), depth + 1)
         if k == "Try":
-            return ("read",)
+            hv = self.helper_value(n["e"], depth)
+            return hv if hv is not None else ("read",)
         if k == "Adt":
+            if n.get("adt") == "core::result::Result" and n.get("variant") == "Ok" and n.get("fields"):
+                return self.ev(n["fields"][0]["e"], depth + 1)
             if n.get("adt") == "core::option::Option":
                 return ("None",) if n.get("variant") == "None" else ("Some",)
             if not n.get("fields"):
@@ -450,7 +476,7 @@ class V0Eval:
         return ("?", k)
 
 
-@rule("W8d", ["C13"], floor=7, doc="format 0: the fields that format 0 does not carry are filled with the neutral values (annotations None / false / "
+@rule("W8d", ["C13", "C05"], floor=7, doc="format 0: the fields that format 0 does not carry are filled with the neutral values (annotations None / false / "
       "Unknown) and the discriminant width with 1 - the width every format-0 enum was written with - so the decoded schema is the stored "
       "one minus memory-layout annotations")
 def w8d(facts, tier):
@@ -459,7 +485,7 @@ def w8d(facts, tier):
     for (ty, fid), (rf, rts) in sorted(des.items()):
         if ty not in SCHEMA_TYPES:
             continue
-        ev_ = V0Eval(rf)
+        ev_ = V0Eval(rf, facts)
         for x in walk(rf["body"]):
             if x.get("k") != "Adt" or not x.get("fields"):
                 continue
@@ -474,7 +500,7 @@ def w8d(facts, tier):
                 key = site
                 ok = got == want
                 st = "pass" if ok else ("undecided" if got[0] in ("?", "call", "default") else "violation")
-                seen[key] = ob(["C13"], "W8d", key, st, where(rf, x),
+                seen[key] = ob(["C13", "C05"], "W8d", key, st, where(rf, x),
                                f"{rf['id']} at format 0: {name}.{fl['f']} = {got}" if ok else
                                f"{rf['id']} at file_version 0 sets {name}.{fl['f']} to {got}, format 0 means {want}: a schema section of an old "
                                f"file no longer decodes to the stored schema (it is then compared, and rejected, as a different schema)")
